@@ -5,7 +5,10 @@ package main
 import (
 	"fmt"
 	"os"
+	"os/exec"
 	"path/filepath"
+	"sort"
+	"strings"
 	"runtime/debug"
 	"strconv"
 	"time"
@@ -63,8 +66,77 @@ func main() {
 		}
 		if tier == "thorough" {
 			an.Thorough(w, prop, res, extra)
+			if os.Getenv("VERIF_SELFTEST") != "off" && os.Getenv("VERIF_REPO") == "" {
+				extra["self_test"] = selfTest(prop, repo, verifDir)
+			}
 		}
 		code = res.Finish(verifDir, evTier, seed, started, extra)
 	}()
 	os.Exit(code)
+}
+
+// selfTest (thorough tier, informational): every property-breaking change kept under
+// seeded/ and seeds/own/ for this property is applied to a scratch copy of the current
+// tree (outside /repo and /verif, removed at once) and the quick analysis is run on the
+// copy in a child process. The outcome is recorded in the evidence and printed; it never
+// changes the verdict on /repo: a seed that no longer applies, or that a legitimate
+// change of /repo has made harmless, is not a violation of the property.
+func selfTest(prop, repo, verifDir string) map[string]any {
+	var patches []string
+	ms, _ := filepath.Glob(filepath.Join(verifDir, "seeded", prop+"-*", "patch.diff"))
+	patches = append(patches, ms...)
+	ms, _ = filepath.Glob(filepath.Join(verifDir, "seeds", "own", "*."+prop+".diff"))
+	patches = append(patches, ms...)
+	sort.Strings(patches)
+	exe, err := os.Executable()
+	if err != nil {
+		return map[string]any{"error": err.Error()}
+	}
+	var reported, silent, skipped []string
+	for _, p := range patches {
+		name := filepath.Base(filepath.Dir(p))
+		if strings.HasSuffix(p, ".diff") && filepath.Base(p) != "patch.diff" {
+			name = strings.TrimSuffix(filepath.Base(p), ".diff")
+		}
+		tmp, err := os.MkdirTemp("", "tshcheck-self-")
+		if err != nil {
+			skipped = append(skipped, name+" (no scratch directory)")
+			continue
+		}
+		func() {
+			defer os.RemoveAll(tmp)
+			dst := filepath.Join(tmp, "repo")
+			if out, err := exec.Command("cp", "-a", repo, dst).CombinedOutput(); err != nil {
+				skipped = append(skipped, name+" (copy failed: "+strings.TrimSpace(string(out))+")")
+				return
+			}
+			os.RemoveAll(filepath.Join(dst, ".git"))
+			ap := exec.Command("git", "apply", "--whitespace=nowarn", p)
+			ap.Dir = dst
+			if _, err := ap.CombinedOutput(); err != nil {
+				skipped = append(skipped, name+" (patch does not apply to the current tree)")
+				return
+			}
+			c := exec.Command(exe, prop, "quick")
+			c.Env = append(os.Environ(), "VERIF_REPO="+dst, "VERIF_EVIDENCE_DIR="+filepath.Join(tmp, "ev"), "VERIF_DIR="+verifDir)
+			_, err := c.CombinedOutput()
+			code := 0
+			if ee, ok := err.(*exec.ExitError); ok {
+				code = ee.ExitCode()
+			} else if err != nil {
+				code = 2
+			}
+			switch code {
+			case 1:
+				reported = append(reported, name)
+			case 0:
+				silent = append(silent, name)
+			default:
+				skipped = append(skipped, name+" (variant does not load / type-check)")
+			}
+		}()
+	}
+	fmt.Printf("SELF-TEST property=%s seeded variants on scratch copies of the current tree: %d reported, %d silent %v, %d skipped %v\n", prop, len(reported), len(silent), silent, len(skipped), skipped)
+	return map[string]any{"variants": len(patches), "reported": reported, "silent": silent, "skipped": skipped,
+		"note": "informational: the seeded changes are applied to scratch copies only; the verdict of this check concerns /repo's working tree alone"}
 }
